@@ -13,7 +13,7 @@ import (
 func init() {
 	register(&propInfo{
 		ID:          "C15",
-		Explanation: "Origin, must-call and site analysis of what happens to server-side work when a connection ends: (R15.1) the context handed to every handler derives, through cancellation-preserving steps only, from the per-connection context whose cancel function is deferred in the connection loop; every loop exit also runs the in-flight failer, which invokes the cancel function of every entry of the handling table; (R15.2) every function that can serve as a writer provider invokes its callback on every path (a response written for a dead connection must not park its handler goroutine); (R15.3) the forwarding goroutine's select set contains the exit signal and returns on it, and the channel registrar's hand-over is a select alternative to the exit signal; (R15.4) channels on which helper goroutines report back to the loop have room for a report that arrives after the loop has exited; (R15.5) the loop's deferred cleanup cannot block (the ping stopper does not wait for anything), so the cancellations are actually reached; (R15.6) exit cleanup is registered before every return of the loop. R15.3 also decides, under the situation 'exit case chosen with ok=false' (comparisons of the chosen index with constants decided, short-circuit phis evaluated over feasible edges), that the forwarder returns before its next select. R15.3 also: no goroutine is started on the forwarder's exit path; R15.5 also: no deferred call of the loop waits on a WaitGroup. (R15.9) once a message was taken from the socket reader every path restarts the reader, signals loss or redials. (R15.10) no blocking read lies in the connection loop's synchronous cone. (R15.11) every send on the frame-header channel or the frame queue is a select alternative to the exit signal (or a context's Done): a reader goroutine is not left parked when the loop exits while a frame arrives.",
+		Explanation: "Origin, must-call and site analysis of what happens to server-side work when a connection ends: (R15.1) the context handed to every handler derives, through cancellation-preserving steps only, from the per-connection context whose cancel function is deferred in the connection loop; every loop exit also runs the in-flight failer, which invokes the cancel function of every entry of the handling table; (R15.2) every function that can serve as a writer provider invokes its callback on every path (a response written for a dead connection must not park its handler goroutine); (R15.3) the forwarding goroutine's select set contains the exit signal and returns on it, and the channel registrar's hand-over is a select alternative to the exit signal; (R15.4) channels on which helper goroutines report back to the loop have room for a report that arrives after the loop has exited; (R15.5) the loop's deferred cleanup cannot block (the ping stopper does not wait for anything), so the cancellations are actually reached; (R15.6) exit cleanup is registered before every return of the loop. R15.3 also decides, under the situation 'exit case chosen with ok=false' (comparisons of the chosen index with constants decided, short-circuit phis evaluated over feasible edges), that the forwarder returns before its next select. R15.3 also: no goroutine is started on the forwarder's exit path; R15.5 also: no deferred call of the loop waits on a WaitGroup. (R15.9) once a message was taken from the socket reader every path restarts the reader, signals loss or redials. (R15.10) no blocking read lies in the connection loop's synchronous cone. (R15.11) every send on the frame-header channel or the frame queue is a select alternative to the exit signal (or a context's Done): a reader goroutine is not left parked when the loop exits while a frame arrives. (R15.12) the ping/pong handlers, which run on the socket reader, take no mutex and write no message.",
 		NotDecided:  "Goroutine counts at run time, handlers that ignore their context, a socket reader parked on its bare hand-over when the loop exits at the instant a frame header arrives (observation recorded in DESIGN.md).",
 		Assumptions: []string{"writer providers are the functions that flow into a parameter of type func(func(io.Writer)) of the dispatcher / lazy-writer helper"},
 		Run:         runC15,
@@ -277,6 +277,8 @@ func runC15(c *Ctx) {
 	// ---- R15.11
 	c.rule("R15.11", "the socket-reading goroutines hand a frame header to the loop and a frame body to the frame executor with a send that is a select alternative to the connection's exit signal (or its context): a plain send parks the reader, with the connection it holds, for ever when the loop exits at the instant a frame has arrived")
 	c.readSideHandOvers("R15.11")
+	c.rule("R15.12", "the socket reader is never held up by the write side: the ping / pong handlers, which gorilla runs on the reading goroutine, take no library mutex and write nothing under it (a reader parked behind a writer stuck on a silent peer never sees the connection end, so nothing is cancelled)")
+	c.controlHandlersDoNotLock("R15.12")
 
 	// ---- R15.5 / R15.6
 	c.cleanupCannotBlock("R15.5")
@@ -644,5 +646,53 @@ func (c *Ctx) readSideHandOvers(rule string) {
 	}
 	if n == 0 {
 		c.und(rule, "read-side hand-overs", "-", "no send on the frame-header channel or the frame queue found")
+	}
+}
+
+// controlHandlersDoNotLock: R15.12 = R17.16. gorilla invokes the ping and pong handlers from NextReader, i.e.
+// on the goroutine that reads the socket. A handler that takes the write lock (to answer a ping with a pong,
+// say) waits behind whichever writer holds it; when that writer is stuck on a peer that stopped reading, the
+// reader goroutine is stuck too: the peer's FIN or close frame is never read, the loop never learns that the
+// connection ended, handler contexts are never cancelled and everything of the connection is retained. On the
+// server no timeout is configured, so the wait has no bound at all. Reported: a sync.Mutex / RWMutex Lock, or a
+// message write (WriteMessage / WriteJSON / NextWriter), in the cone of a function installed with
+// SetPingHandler / SetPongHandler. WriteControl, which gorilla serialises itself under a deadline, is fine.
+func (c *Ctx) controlHandlersDoNotLock(rule string) {
+	p := c.P
+	n := 0
+	for _, ci := range gorillaConnCalls(p) {
+		m := methodOf(ci)
+		if m != "SetPingHandler" && m != "SetPongHandler" {
+			continue
+		}
+		for _, h := range c.funcsOf(ci.Common().Args[1]) {
+			n++
+			var bad ssa.Instruction
+			what := ""
+			p.coneInstrs(h, func(in ssa.Instruction) {
+				if bad != nil {
+					return
+				}
+				x, ok := in.(ssa.CallInstruction)
+				if !ok {
+					return
+				}
+				switch nm := calleeName(x); {
+				case nm == "(*sync.Mutex).Lock" || nm == "(*sync.RWMutex).Lock" || nm == "(*sync.RWMutex).RLock":
+					bad, what = in, "takes a mutex"
+				case strings.HasPrefix(nm, "(*"+gorilla+".Conn).") && (methodOf(x) == "WriteMessage" || methodOf(x) == "WriteJSON" || methodOf(x) == "NextWriter" || methodOf(x) == "WritePreparedMessage"):
+					bad, what = in, "writes a message"
+				}
+			})
+			construct := fmt.Sprintf("%s: %s handler runs on the socket reader", fname(h), strings.TrimSuffix(strings.TrimPrefix(m, "Set"), "Handler"))
+			if bad != nil {
+				c.bad(rule, construct, c.ipos(bad), "the handler "+what+": it runs on the goroutine that reads the socket, which then waits behind a writer that may be stuck on a silent peer — the connection's end is never read, the loop never returns and nothing is cancelled or released")
+			} else {
+				c.ok(rule, construct, p.pos(h.Pos()), "takes no mutex and writes no message")
+			}
+		}
+	}
+	if n == 0 {
+		c.ok(rule, "control-frame handlers", "-", "none installed: gorilla's defaults (WriteControl under a deadline) are in place")
 	}
 }
